@@ -51,15 +51,35 @@ type Contract struct {
 	Unroll     map[int]int // loop ordinal -> constant bound to unroll
 	Ghost      []string
 	Exceptional []*Clause // onpanic ensures
+	Witnesses   []*Witness
+}
+
+// Witness: a ghost out-parameter; "witness s = expr after callee#n" binds s to expr evaluated right
+// after the n-th call to callee in the body; at call sites s is an existentially bound fresh constant.
+type Witness struct {
+	Name   string
+	Expr   *Clause
+	Callee string
+	N      int
+}
+
+type Define struct {
+	Name   string
+	Params []string
+	Body   ast.Expr
+	Text   string
 }
 
 type ContractSet struct {
-	ByKey map[string]*Contract
-	Order []string
-	Files []string
+	ByKey   map[string]*Contract
+	Order   []string
+	Files   []string
+	Defines map[string]*Define // "pkgpath.name"
 }
 
-func newContractSet() *ContractSet { return &ContractSet{ByKey: map[string]*Contract{}} }
+func newContractSet() *ContractSet {
+	return &ContractSet{ByKey: map[string]*Contract{}, Defines: map[string]*Define{}}
+}
 
 func (cs *ContractSet) get(key string) *Contract { return cs.ByKey[key] }
 
@@ -87,6 +107,28 @@ func (cs *ContractSet) parseFile(path, pkgPath string) error {
 			continue
 		}
 		word, rest := splitWord(line)
+		if word == "define" {
+			// define name(a, b) = expr
+			eqi := strings.Index(rest, "=")
+			lp, rp := strings.Index(rest, "("), strings.Index(rest, ")")
+			if eqi < 0 || lp < 0 || rp < lp || rp > eqi {
+				return fmt.Errorf("%s:%d: bad define", path, ln)
+			}
+			name := strings.TrimSpace(rest[:lp])
+			var params []string
+			for _, a := range strings.Split(rest[lp+1:rp], ",") {
+				if a = strings.TrimSpace(a); a != "" {
+					params = append(params, a)
+				}
+			}
+			body := strings.TrimSpace(rest[eqi+1:])
+			e, err := parser.ParseExpr(body)
+			if err != nil {
+				return fmt.Errorf("%s:%d: %v in %q", path, ln, err, body)
+			}
+			cs.Defines[pkgPath+"."+name] = &Define{Name: name, Params: params, Body: e, Text: body}
+			continue
+		}
 		if word == "func" {
 			key := strings.TrimSpace(rest)
 			assumed := false
@@ -194,6 +236,24 @@ func (cs *ContractSet) parseFile(path, pkgPath string) error {
 			default:
 				return fmt.Errorf("%s:%d: unknown loop clause %q", path, ln, w3)
 			}
+		case "witness":
+			// witness s = expr after callee#n
+			eqi := strings.Index(rest, "=")
+			ai := strings.LastIndex(rest, " after ")
+			if eqi < 0 || ai < eqi {
+				return fmt.Errorf("%s:%d: bad witness clause", path, ln)
+			}
+			c, err := mk(strings.TrimSpace(rest[eqi+1 : ai]))
+			if err != nil {
+				return err
+			}
+			tgt := strings.TrimSpace(rest[ai+7:])
+			n := 1
+			if hi := strings.Index(tgt, "#"); hi >= 0 {
+				n, _ = strconv.Atoi(tgt[hi+1:])
+				tgt = tgt[:hi]
+			}
+			cur.Witnesses = append(cur.Witnesses, &Witness{Name: strings.TrimSpace(rest[:eqi]), Expr: c, Callee: tgt, N: n})
 		case "property":
 			cur.Props = append(cur.Props, strings.Fields(rest)...)
 		case "arith":
